@@ -641,17 +641,19 @@ Definition font_agrees_with (nm : names) (rp : rmap) (axes : list axis) (insts :
       && opt_n_eqb (r_elided r') (o_elided o)
   end.
 
-(* `multi`: the source has a string coincidence that makes the result depend on
-   HashMap order; then SOME iteration order must explain the font *)
-Definition font_agrees (multi : bool) (adds : list (N * str)) (major : Z) (minor : N) (vendor : str)
+(* `rot`: a default-instance name occurs under several reserved ids, so the result
+   depends on the iteration order of the source map; `prm`: the source supplies ids
+   above 255, so it depends on the iteration order of reusable_names as well.  Then
+   SOME iteration order must explain the font. *)
+Definition font_agrees (rot prm : bool) (adds : list (N * str)) (major : Z) (minor : N) (vendor : str)
     (axes : list axis) (insts : list inst) (prog : list (gkind * list nspec))
     (version : option str) (o : observed) : bool :=
   let nm := nb_run adds major minor vendor in
   existsb (fun nm' =>
              let rp := alloc nm' axes insts in
              existsb (fun rp' => font_agrees_with nm' rp' axes insts prog version o)
-               (if multi then perms rp else [rp]))
-    (if multi then rotations nm else [nm]).
+               (if prm then perms rp else [rp]))
+    (if rot then rotations nm else [nm]).
 
 (* StaticMetadata::new alone: `nm` is the input map in its observed iteration order *)
 Definition alloc_agrees (multi : bool) (nm : names) (axes : list axis) (insts : list inst) (out : names) : bool :=
